@@ -136,6 +136,12 @@ impl PartialEq for Value_ {
     fn eq(&self, other: &Self) -> bool {
         match (self, other) {
             (Value_::Int(i1), Value_::Int(i2)) => i1 == i2,
+            (Value_::Float(f1), Value_::Float(f2)) => {
+                // Compare the bit patterns, so equality is reflexive
+                // (required by `Eq`) and agrees with the printed
+                // form: `0.0` and `-0.0` are different values.
+                f1.to_bits() == f2.to_bits()
+            }
             (
                 Value_::Fun { name_sym, .. },
                 Value_::Fun {
@@ -182,6 +188,20 @@ impl PartialEq for Value_ {
             ) => {
                 // We don't consider type when comparing tuple
                 // values.
+                self_items == other_items
+            }
+            (
+                Value_::Dict {
+                    items: self_items,
+                    value_type: _,
+                },
+                Value_::Dict {
+                    items: other_items,
+                    value_type: _,
+                },
+            ) => {
+                // As with lists, we don't consider the value type
+                // when comparing dict values.
                 self_items == other_items
             }
             (
